@@ -289,7 +289,8 @@ def quiet():
     os.environ["TQDM_DISABLE"] = "1"
 
 
-def make_model(unit=False):
+def make_model(unit=False, cut=None):
+    """cut = r: the likelihood is exactly zero (log L = -inf) outside the disc of radius r (a hard constraint)"""
     from nessai.model import Model
 
     class G(Model):
@@ -301,7 +302,11 @@ def make_model(unit=False):
             return np.log(self.in_bounds(x), dtype=float) - np.log(100.0)
 
         def log_likelihood(self, x):
-            return -0.5 * (x["x"] ** 2 + x["y"] ** 2)
+            r2 = x["x"] ** 2 + x["y"] ** 2
+            if cut is None:
+                return -0.5 * r2
+            with np.errstate(all="ignore"):
+                return np.where(r2 <= cut * cut, -0.5 * r2, -np.inf)
 
         def to_unit_hypercube(self, x):
             y = x.copy()
@@ -490,7 +495,7 @@ def run_ins(job):
             t = cfg["tolerance"]
             kw["tolerance"] = [unnum(v) for v in t] if isinstance(t, list) else unnum(t)
         try:
-            fs = FlowSampler(make_model(), resume=False, **kw)
+            fs = FlowSampler(make_model(cut=cfg.get("cut")), resume=False, **kw)
             ns = fs.ns
             res["configured"] = {"stopping_criterion": list(ns.stopping_criterion), "tolerance": [num(t) for t in ns.tolerance],
                                  "stop_any": bool(ns._stop_any), "min": int(ns.min_iteration),
@@ -510,7 +515,7 @@ def run_ins(job):
                 res["run2"] = {"raised": type(e).__name__, "msg": str(e)[:200]}
             n0 = len(rec["its"])
             try:
-                fs2 = FlowSampler(make_model(), resume=True, **kw)
+                fs2 = FlowSampler(make_model(cut=cfg.get("cut")), resume=True, **kw)
                 ns2 = fs2.ns
                 res["resumed"] = bool(getattr(ns2, "resumed", False))
                 e0 = int(ns2.model.likelihood_evaluations)
@@ -527,6 +532,47 @@ def run_ins(job):
         shutil.rmtree(outdir, ignore_errors=True)
         out.append(res)
     return out
+
+
+def crit_vector(case):
+    """every criterion the importance sampler offers, computed by the REAL code (OrderedSamples, _INSIntegralState,
+    ImportanceNestedSampler.compute_stopping_criterion) on a given sample vector that may contain zero-likelihood
+    (log L = -inf) samples; `prev` = the sample vector of the previous iteration (for log_dZ)"""
+    from nessai.samplers.importancesampler import ImportanceNestedSampler as INS, OrderedSamples
+    dt = [("logL", "f8"), ("logW", "f8")]
+
+    def store(v):
+        a = np.zeros(len(v["logL"]), dtype=dt)
+        a["logL"] = [unnum(x) for x in v["logL"]]
+        a["logW"] = [unnum(x) for x in v["logW"]]
+        os_ = OrderedSamples()
+        os_.samples = a
+        os_.nested_samples_indices = np.array(v["nested_idx"], dtype=int)
+        os_.live_points_indices = np.array(v["live_idx"], dtype=int)
+        os_.log_likelihood_threshold = unnum(v["threshold"])
+        with np.errstate(all="ignore"):
+            os_.update_evidence()
+        return os_
+
+    with np.errstate(all="ignore"):
+        cur = store(case["cur"])
+        hist = []
+        it = 0
+        if case.get("prev"):
+            hist = [float(store(case["prev"]).state.logZ)]
+            it = 1
+        st = cur.state
+        o = types.SimpleNamespace(iteration=it, state=st, _ordered_samples=cur, history={"logZ": hist},
+                                  stopping_criterion=list(CRITS), tolerance=[0.0] * len(CRITS))
+        o.log_evidence = st.logZ
+        o.log_evidence_error = st.compute_uncertainty()
+        try:
+            ret = INS.compute_stopping_criterion(o)
+        except Exception as e:
+            return {"raised": type(e).__name__, "msg": str(e)[:200]}
+    return {"attrs": {k: num(getattr(o, k)) for k in CRITS}, "returned": [num(v) for v in ret],
+            "log_evidence": num(st.logZ), "log_evidence_error": num(o.log_evidence_error),
+            "prev_logZ": hist[0] if hist else None}
 
 
 def zerr_replay(case):
@@ -558,7 +604,8 @@ def main():
                "reached": [run_reached(c) for c in job.get("reached", [])],
                "configure": [run_configure(c) for c in job.get("configure", [])],
                "finalise": [run_std_finalise(c) for c in job.get("finalise", [])],
-               "zerr": [zerr_replay(c) for c in job.get("zerr", [])]}
+               "zerr": [zerr_replay(c) for c in job.get("zerr", [])],
+               "critvec": [crit_vector(c) for c in job.get("critvec", [])]}
     elif mode == "std":
         out = {"runs": run_std(job)}
     elif mode == "ins":
